@@ -120,6 +120,55 @@ def r2(ctx, r):
         a = [show(strip_wrappers(x)).replace(" ", "") for x in e.node["args"]]
         r.expect("sr.payload.data()" in a and any(x.endswith("sr.payload.size()") for x in a), sd, e, "datagram not the payload",
                  "%s is not given exactly (payload.data(), payload.size()): %s" % (e.node["callee"], a[1:3]), okdesc="%s(payload.data(), payload.size())" % e.node["callee"])
+    # send flags: a datagram socket is corked by MSG_MORE (0x8000) — the payload is held back and the next send is APPENDED to
+    # it, its destination ignored — so the flags of every datagram send are constants without that bit
+    MSG_MORE, OK_BITS = 0x8000, 0x4000 | 0x40      # allowed: MSG_NOSIGNAL, MSG_DONTWAIT
+    nfl = 0
+    for f in (sd, fn(ctx, "flushListener"), fn(ctx, "writeClient")):
+        inits = {}
+        for e in f.stmts():
+            if e.node.get("k") == "decl":
+                for dv in e.node["vars"]:
+                    if dv.get("init") is not None:
+                        inits[dv["d"]] = dv["init"]
+        for e in calls(f, ("sendto", "send", "sendmsg")):
+            a = e.node["args"]
+            fl = a[3] if e.node["callee"] in ("sendto", "send") and len(a) > 3 else (a[2] if len(a) > 2 else None)
+            if fl is None:
+                raise AnalysisBroken("%s: flags argument of %s not found" % (short(f.name), e.node["callee"]))
+            nfl += 1
+            consts, opaque = [], []
+
+            def collect(n, depth=0):
+                n = strip_casts(n)
+                if n is None:
+                    return
+                if n.get("cv") is not None and n.get("k") in ("int", "gvar", "enum", "bin", "un", "cast", "cond"):
+                    consts.append(n["cv"])
+                    return
+                if n.get("k") == "var" and n.get("d") in inits and depth < 4:
+                    return collect(inits[n["d"]], depth + 1)
+                if n.get("k") == "bin" and n.get("op") in ("|", "+"):
+                    collect(n["lhs"], depth)
+                    collect(n["rhs"], depth)
+                    return
+                if n.get("k") == "cond":
+                    collect(n["t"], depth)
+                    collect(n["f"], depth)
+                    return
+                opaque.append(show(n)[:30])
+            collect(fl)
+            if opaque:
+                raise AnalysisBroken("%s: flags of %s contain `%s`, not a combination of constants" % (short(f.name), e.node["callee"], opaque[0]))
+            bits = 0
+            for c in consts:
+                bits |= c
+            r.instance()
+            r.expect(not (bits & MSG_MORE) and not (bits & ~OK_BITS), f, e, "datagram send flags", "%s calls %s with flags that can include %s: on a UDP socket MSG_MORE corks the datagram — the payload is not sent, the next queued "
+                     "payload is appended to it and that entry's destination is ignored, so two sends leave as one merged datagram to the first peer" % (
+                         short(f.name), e.node["callee"], "MSG_MORE" if bits & MSG_MORE else hex(bits & ~OK_BITS)), okdesc="%s: %s flags ⊆ {MSG_NOSIGNAL, MSG_DONTWAIT}" % (short(f.name), e.node["callee"]))
+    if nfl < 3:
+        raise AnalysisBroken("only %d datagram send sites with flags found" % nfl)
     # nothing builds a partial range from the payload (the stream idiom must not leak into UDP)
     for f in (sd, fn(ctx, "flushListener"), fn(ctx, "writeClient")):
         for e in f.stmts():
